@@ -121,6 +121,8 @@ pub struct ItemSpan {
     /// Byte range of the item including its outer attributes.
     pub lo: usize,
     pub hi: usize,
+    /// Start of the item proper (after its outer attributes and doc comments).
+    pub decl_lo: usize,
     pub kind: &'static str,
 }
 
@@ -176,6 +178,7 @@ pub fn top_items(src: &str, edition: &str) -> Option<(Vec<ItemSpan>, usize)> {
             v.push(ItemSpan {
                 lo,
                 hi,
+                decl_lo: span_range(sm, it.span).0.max(lo),
                 kind: item_kind_name(&it.kind),
             });
         }
